@@ -78,6 +78,11 @@ func c07Rules(tier string) []Rule {
 			G(`-^\(\*state\.StateNode\)\.Managed\(\$0\)$`, `-^\$0\.Node == nil$`),
 			G(`-^\(\*state\.StateNode\)\.Managed\(\$0\)$`, `+^\$0\.Node\.ObjectMeta\.Labels\["karpenter\.sh/initialized"\] == "true"$`),
 		)},
+		// a nomination always (re)starts the window: the store is unconditional and is now + nominationWindow
+		POST{ID: "C07.POST2", Fn: "(*state.StateNode).Nominate", From: "", Must: []string{`^store \$0\.nominatedUntil = &local<metav1\.Time>$`}, Note: "every call to Nominate moves nominatedUntil"},
+		core.Custom{ID: "C07.PROV3", Kind: "PROV", Run: func(w *core.World, id string) []core.Result {
+			return core.InstrPresent(w, id, "PROV", "(*state.StateNode).Nominate", `^store &local<metav1\.Time>\.Time = \(time\.Time\)\.Add\(iface:\(k8s\.io/utils/clock\.PassiveClock\)\.Now\(\$2\), state\.nominationWindow\(\)\)$`, 1, "nominatedUntil = now + nominationWindow")
+		}},
 		MPT{ID: "C07.TT1e", Fn: "(*state.StateNode).Nominated", Ret: core.RetFalse, Gates: gates(
 			G(`-^\(time\.Time\)\.After\(\$0\.nominatedUntil\.Time, iface:\(k8s\.io/utils/clock\.PassiveClock\)\.Now\(\$1\)\)$`, `-^\(\*metav1\.Time\)\.After\(`),
 		)},
